@@ -12,7 +12,60 @@ ENGINE_CFGS = [{}, {"list_conc": False, "parent_conc": False, "field_parent_conc
                {"list_conc": False}, {"field_parent_conc": False}]
 
 
+def N(k, parent, name, alias="", optype=""):
+    return {"k": k, "parent": parent, "name": name, "alias": alias, "cond": "", "args": [], "dirs": [], "vdefs": [], "optype": optype, "ptype": ""}
+
+
+def shared_exception_job(j):
+    """one dimension the enumeration cannot express: the SAME exception object raised at two positions
+    (in one request and across two requests).  Every nulled position must still be explained by an error
+    carrying its own path."""
+    from base import main_loop
+    from execworld import CaseState
+    st = {"world": None}
+
+    def on_line(rec):
+        if rec["kind"] == "schema" and st["world"] is None:
+            st["world"] = World(rec["types"], rec["roots"])
+            raise StopIteration
+    res = tlc.run("MC_faults.tla", "MC_faults_layout.cfg", on_line=on_line, workers=1, simulate=1, depth=2, seed=1, timeout=300)
+    w = st["world"]
+    eng = w.engine({})
+    viol = []
+    n = 0
+    for lib in (False, True):
+        shared = (w.lib_error or __import__("execworld")._lib_error_cls())("shared", {"code": "shared"}) if lib else RuntimeError("shared")
+
+        class Raiser:
+            def value(self, t, path, depth=0):
+                raise shared
+        docs = [[N("OP", 0, "", optype="query"), N("F", 1, "s"), N("F", 1, "s", alias="z")],
+                [N("OP", 0, "", optype="query"), N("F", 1, "i")]]
+        seen_paths = []
+        for nodes in docs:
+            n += 1
+            doc = render.DocText(nodes)
+            cs = CaseState({})
+            cs.adversary = Raiser()
+            cs.ctx = {"__cs": cs}
+            resp = main_loop().run(eng.execute(doc.text, context=cs.ctx))
+            keys = [x["alias"] or x["name"] for x in nodes if x["k"] == "F"]
+            paths = [tuple(e.get("path") or ()) for e in resp.get("errors") or []]
+            mm = []
+            for k in keys:
+                if (resp.get("data") or {}).get(k, "missing") is not None:
+                    mm.append("field %s should be null" % k)
+                if (k,) not in paths:
+                    mm.append("nulled position [%s] is not explained by an error with its path (error paths %s)" % (k, paths))
+            if mm:
+                genrun.add_viol(viol, ({"kind": "shared-exception-object", "library_error": lib, "across_requests": len(keys) == 1, "first": mm[0][:100]},
+                                       {"query": doc.text, "response": repr(resp), "mismatches": mm}))
+    return {"job": j, "tlc": [], "evaluations": n, "distinct": [], "samples": [], "violations": viol}
+
+
 def job(j):
+    if j.get("kind") == "shared-exception":
+        return shared_exception_job(j)
     cfg = j["cfg"]
     st = {"world": None, "n": 0, "viol": [], "distinct": set(), "samples": []}
 
@@ -47,7 +100,7 @@ def main(argv):
     rep.assumptions = ["stand-in parser replaces libgraphqlparser", "fresh exception object per raise (shared exception objects: see known finding F9)",
                        "4 engine configurations (concurrent / sequential lists and parents, gather / sync argument coercion) rotated over the cases"]
     cfgs = THOROUGH if common.tier() == "thorough" else QUICK
-    results = genrun.run_jobs("checks.c02", "job", [{"cfg": c} for c in cfgs])
+    results = genrun.run_jobs("checks.c02", "job", [{"cfg": c} for c in cfgs] + [{"kind": "shared-exception"}])
     bad = genrun.merge(rep, results)
     rc = rep.finish()
     if bad:
